@@ -14,9 +14,13 @@ META = {
             "guard precedes every method branch, CFG rule + PE); the QED non-singlet, singlet and valence kernels are proved to be "
             "the identity when all coupling steps coincide. Composition E(a2,a1)E(a1,a0) = E(a2,a0) is proved as an identity in "
             "all symbols for the non-singlet exact, expanded and ordered-truncated kernels at orders 1-4 and for the LO singlet "
-            "kernel with a general 2x2 matrix.",
-    "note": "Formula level (branches of log/atan/sqrt/cbrt assumed principal, log(u/v)=log u-log v). The iterated singlet kernel's "
-            "composition up to discretisation error is not decided. PIT in F_p (error < 1e-30).",
+            "kernel with a general 2x2 matrix. Every singlet method that iterates over coupling steps (orders 2-4) is proved to "
+            "accumulate its steps in path order: with a free intermediate grid point am the two-step kernel is exactly "
+            "K(am->a1) @ K(a0->am) of the one-step kernels (later step on the left).",
+    "note": "Formula level (branches of log/atan/sqrt/cbrt assumed principal, log(u/v)=log u-log v). Of the iterated singlet "
+            "kernel's composition up to discretisation error only the path ordering of the step product is decided (a necessary "
+            "condition: for the reversed product the error does not shrink with the number of steps); the size of the "
+            "discretisation error is a runtime quantity. PIT in F_p (error < 1e-30).",
     "technique": "partial evaluation to formulas + polynomial identity testing; guard-dominance rule on the singlet dispatcher",
     "engine": "sa",
 }
@@ -141,6 +145,48 @@ def run(chk):
     ok, info = dag.is_zero_fp(kern.mat_sub(kern.mat_mul(G[0], K10), kern.mat_mul(K10, G[0])).flat(), chk.seed, 3)
     chk.decide(ok, "exact-composition", f.qname, "LO singlet kernel does not commute with gamma0 (not a function of gamma0)",
                where=f.where, instance="commutes", data={"witness": info}, how="PIT F_p")
+    # ---- iterated singlet kernels are PATH-ORDERED products -----------------------------------------------
+    # "composes up to its discretisation error" has one part that is visible in the shape of the code: a kernel built from
+    # several coupling steps must multiply the later step on the LEFT.  With a free intermediate grid point am the two-step
+    # kernel must then be exactly K(am->a1) @ K(a0->am) of the one-step kernels (for the reversed product the composition
+    # error does not vanish with the number of steps).  Order 1 is skipped: all step generators commute there.
+    am = dag.sym("am")
+    grid_calls = []
+    old_geom = pe.ext.get("numpy.geomspace")
+
+    def geom(pe_, a, k):
+        num = pe_.as_index(k.get("num", a[2] if len(a) > 2 else 50))
+        grid_calls.append(num)
+        if num == 3:
+            return Arr.from_nested([a[0], am, a[1]])
+        return old_geom(pe_, a, k)
+
+    pe.ext["numpy.geomspace"] = geom
+    n_path = 0
+    try:
+        for n in range(2, 5):
+            G = kern.sg_gamma(n)
+            for mname, mem in M.items():
+                inst = f"order={n},method={mname}"
+                try:
+                    del grid_calls[:]
+                    K2 = pe.call(sd.qname, [(n, 0), mem, G, a1, a0, nf, 2, (n + 1, 0)])
+                    if 3 not in grid_calls:
+                        continue  # this method does not iterate over coupling steps
+                    K_late = pe.call(sd.qname, [(n, 0), mem, G, a1, am, nf, 1, (n + 1, 0)])
+                    K_early = pe.call(sd.qname, [(n, 0), mem, G, am, a0, nf, 1, (n + 1, 0)])
+                    ok, info = dag.is_zero_fp(kern.mat_sub(K2, kern.mat_mul(K_late, K_early)).flat(), chk.seed, 2)
+                except (ZeroDivisionError, PERaise) as e:
+                    ok, info = False, {"error": str(e)}
+                n_path += 1
+                n_inst += 1
+                chk.decide(ok, "iterated-kernel-is-path-ordered", sd.qname,
+                           f"the two-step singlet kernel a0 -> am -> a1 is not K(am->a1) @ K(a0->am): the coupling steps are not "
+                           f"accumulated in path order (later step on the left), so composition fails beyond discretisation error ({inst})",
+                           where=sd.where, instance=inst, data={"witness": info}, how="PE with a free grid point + PIT F_p")
+    finally:
+        pe.ext["numpy.geomspace"] = old_geom
+    chk.floor("iterating singlet methods x orders", n_path, 12)
     chk.floor("kernel instances", n_inst, 32 + 32 + 16 + 13)
     chk.note(instances=n_inst, files=["src/eko/kernels/non_singlet.py", "src/eko/kernels/singlet.py",
                                       "src/eko/kernels/singlet_qed.py", "src/eko/kernels/valence_qed.py",
